@@ -5,10 +5,13 @@ from concurrent.futures import ThreadPoolExecutor
 
 VERIF = os.path.dirname(os.path.dirname(os.path.abspath(__file__)))
 SPEC = os.path.join(VERIF, "spec")
-WORK = os.path.join(VERIF, "work")
-REPLAY = os.path.join(VERIF, "replay")
-EVID = os.path.join(VERIF, "evidence")
+# The registered commands use the defaults; the overrides exist so that seeded changes can be
+# evaluated in scratch worktrees (tools/seed_matrix.py) without touching /repo or the evidence.
+WORK = os.environ.get("VERIF_WORK", os.path.join(VERIF, "work"))
+REPLAY = os.environ.get("VERIF_REPLAY", os.path.join(VERIF, "replay"))
+EVID = os.environ.get("VERIF_EVID", os.path.join(VERIF, "evidence"))
 REPO = os.environ.get("VERIF_REPO", "/repo")
+CACHE = os.path.join(VERIF, "work", "cache")      # model results depend on spec/ only
 JAR = "/opt/veriftools/tla/tla2tools.jar:/opt/veriftools/tla/CommunityModules-deps.jar"
 NCPU = os.cpu_count() or 4
 
@@ -38,8 +41,16 @@ def build_harness(kind):
     if kind == "small":
         flags += " --cfg micro_http_verif_small"
     tdir = os.path.join(WORK, "target-" + kind)
+    hdir = os.path.join(VERIF, "harness")
+    if REPO != "/repo":
+        # scratch evaluation: a copy of the harness whose path dependency points at the other tree
+        hdir = os.path.join(WORK, "harness-src")
+        if not os.path.exists(hdir):
+            shutil.copytree(os.path.join(VERIF, "harness"), hdir, ignore=shutil.ignore_patterns("target*"))
+            ct = open(os.path.join(hdir, "Cargo.toml")).read().replace('path = "/repo"', 'path = "%s"' % REPO)
+            open(os.path.join(hdir, "Cargo.toml"), "w").write(ct)
     t0 = time.time()
-    r = sh(["cargo", "build", "--release", "--offline", "--quiet"], cwd=os.path.join(VERIF, "harness"),
+    r = sh(["cargo", "build", "--release", "--offline", "--quiet"], cwd=hdir,
            env={"RUSTFLAGS": flags, "CARGO_TARGET_DIR": tdir, "CARGO_NET_OFFLINE": "true"}, timeout=1800)
     if r.returncode != 0:
         sys.stderr.write(r.stdout.decode(errors="replace")[-4000:])
@@ -96,10 +107,10 @@ def parse_tlc(out):
 
 def run_model(name, module, cfg, timeout_s, workers=None, need=()):
     """Runs one exhaustive TLC configuration (cached by spec hash).  Returns the parsed result."""
-    os.makedirs(os.path.join(WORK, "cache"), exist_ok=True)
+    os.makedirs(CACHE, exist_ok=True)
     os.makedirs(os.path.join(WORK, "tmp"), exist_ok=True)
     key = spec_hash(module + cfg)
-    cpath = os.path.join(WORK, "cache", "%s-%s.json" % (name, key))
+    cpath = os.path.join(CACHE, "%s-%s.json" % (name, key))
     if os.path.exists(cpath) and not os.environ.get("VERIF_NOCACHE"):
         r = json.load(open(cpath))
         r["cached"] = True
